@@ -166,6 +166,11 @@ func taScenarios(thorough bool) []*scenario {
 	// one pool only: an update that is refused after the container's old grant was released has already widened the shared
 	// set of every other container of the machine
 	add("ta/1pool/G2-B500-B200+update", &sysgen.Spec{Name: "1s1n4c2t", Packages: 1, NodesPerDie: 1, CoresPerNode: 4, Threads: 2}, std, pods(tG2, tB500, tB200), menu{stop: true, update: true}, big)
+	// ancestors nearly full (one container only the root can hold, two in NUMA-node pools), then an update that grows a
+	// leaf container by more than the root has left but less than its own pool has: admission must look at the ancestors
+	add("ta/full-ancestors/B9000-B2500-B2500+update", machine16(), std,
+		pods(&tmpl{name: "B9000", cpuReq: 9000, cpuLim: 10000, memLim: 200 * miB}, &tmpl{name: "B2500", cpuReq: 2500, cpuLim: 3000, memLim: 200 * miB}, &tmpl{name: "B2500", cpuReq: 2500, cpuLim: 3000, memLim: 200 * miB}),
+		menu{stop: true, update: true}, []updSpec{{label: "to-4000m", cpuReq: 4000, cpuLim: 4500, memLim: 200 * miB}, {label: "to-2500m", cpuReq: 2500, cpuLim: 3000, memLim: 200 * miB}})
 	add("ta/iso/G1-G2-B500", machine16iso(), std, pods(tG1, tG2, tB500), menu{stop: true, remove: true, sync: true}, nil)
 	add("ta/avail/G2-G1500-BE", machine16(), []cfgSpec{taCfg("avail", taAvailable("cpuset:0-6,8-14"), taReserved("cpuset:0"))}, pods(tG2, tG1500, tBE), menu{stop: true, remove: true}, nil)
 	add("ta/8cpu/G3-B1500-B500", machine8(), std, pods(tG3, tB1500, tB500), menu{stop: true, remove: true}, nil)
@@ -837,7 +842,7 @@ func c14InputCases(thorough bool) []*scenario {
 		`{"duration":"5s"}`, `{"duration":"-5s"}`, `{"duration": null}`, "duration: 99999h", "dram,pmem", "dram,,pmem", "hbm", "foo", "type: prefix\npaths: [/a, null]", "type: 7\npaths: x",
 		"type: glob\npaths:\n- \"[\"", "high", "none", "reserved", "default", "nonexistent-balloon", "a\x00b", big}
 	forms := []string{"/container.c", "/pod", ""}
-	affValues := []string{"", "null", "c: [x]", "c:\n- null", "c:\n  - scope: null\n    match: null", "c:\n  - match:\n      key: name\n      operator: Bogus\n      values: [a]",
+	affValues := []string{"", "null", "c: [x]", "c:\n- null", "c:\n- null\n- match:\n    key: name\n    operator: Exists", "c:\n- match:\n    key: name\n    operator: Exists\n- null", "c: [~, {scope: null}]", "c:\n  - scope: null\n    match: null", "c:\n  - match:\n      key: name\n      operator: Bogus\n      values: [a]",
 		"c:\n  - match:\n      key: name\n      operator: In\n      values: null\n    weight: 99999999999", "[1,2", "c: {a: b}", "{c: [{match: {key: 'pod/labels/x', operator: Exists}}]}",
 		"c:\n  - scope:\n      key: tags/x\n      operator: Matches\n      values: [\"[\"]\n    match:\n      key: :,-::ns:\n      operator: Equals\n      values: [a]", big}
 	var out []*scenario
@@ -865,7 +870,7 @@ func c14InputCases(thorough bool) []*scenario {
 				mk(pol, fmt.Sprintf("%s/ann/%s/v%d", pol, k, vi), map[string]string{k: v}, tG2, "Guaranteed")
 			}
 		}
-		for _, shape := range []string{"no-linux", "no-resources", "no-cpu", "no-memory", "no-oomadj", "pod-no-linux"} {
+		for _, shape := range []string{"no-linux", "no-resources", "no-cpu", "no-memory", "no-oomadj", "no-period", "no-quota", "no-shares", "no-limit", "pod-no-linux"} {
 			for _, base := range []*tmpl{tG2, tB500, tBE} {
 				t := *base
 				t.shape = shape
